@@ -332,6 +332,9 @@ fn main() -> Result<(), Box<dyn std::error::Error>> {
         println!("cargo::rustc-check-cfg=cfg({cfg_name}, values(none()))");
     }
 
+    // Verification hooks are guarded by this cfg (off unless passed in RUSTFLAGS).
+    println!("cargo::rustc-check-cfg=cfg(blake3_team_blake3_verif, values(none()))");
+
     if is_pure() && is_neon() {
         panic!("It doesn't make sense to enable both \"pure\" and \"neon\".");
     }
